@@ -42,7 +42,19 @@ type ConstCheck struct {
 	File            string
 }
 
+// TableCheck is a data obligation on a package-level map/slice literal of
+// strings (keyword tables): required members, forbidden suffixes and patterns.
+type TableCheck struct {
+	Pkg, Var string
+	Tags     []string
+	Contains []string
+	NoSuffix []string
+	NoMatch  []string
+	File     string
+}
+
 type ContractSet struct {
+	Tables    []*TableCheck
 	Consts    []ConstCheck
 	Preds     map[string]predDef
 	Contracts []*Contract
@@ -95,6 +107,7 @@ func (cs *ContractSet) parseFile(pkgPath, file string, f *ast.File) {
 		}
 	}
 	var cur *Contract
+	var curTable *TableCheck
 	var constTags []string
 	errf := func(format string, a ...any) {
 		cs.Errors = append(cs.Errors, file+": "+fmt.Sprintf(format, a...))
@@ -106,6 +119,32 @@ func (cs *ContractSet) parseFile(pkgPath, file string, f *ast.File) {
 		if strings.HasSuffix(kw, "!") {
 			slow = true
 			kw = kw[:len(kw)-1]
+		}
+		if kw == "table" {
+			// table C16 C08 varName
+			fs := strings.Fields(rest)
+			if len(fs) < 2 {
+				errf("bad table: %s", ln)
+				continue
+			}
+			curTable = &TableCheck{Pkg: pkgPath, Var: fs[len(fs)-1], Tags: fs[:len(fs)-1], File: file}
+			cs.Tables = append(cs.Tables, curTable)
+			cur = nil
+			continue
+		}
+		if curTable != nil && (kw == "contains" || kw == "none-suffix" || kw == "none-match") {
+			switch kw {
+			case "contains":
+				curTable.Contains = append(curTable.Contains, strings.Fields(rest)...)
+			case "none-suffix":
+				curTable.NoSuffix = append(curTable.NoSuffix, strings.Fields(rest)...)
+			case "none-match":
+				curTable.NoMatch = append(curTable.NoMatch, strings.Fields(rest)...)
+			}
+			continue
+		}
+		if kw == "func" || kw == "consts" {
+			curTable = nil
 		}
 		if kw == "ghostsum" {
 			// ghostsum NAME(s, i) := body over s[i]
@@ -215,6 +254,17 @@ func (cs *ContractSet) parseFile(pkgPath, file string, f *ast.File) {
 			case "trusted":
 				cur.Trusted = true
 			case "traverse":
+				if strings.HasPrefix(rest, "stepmark ") {
+					// traverse stepmark K param HandleType expr
+					ps := strings.SplitN(rest, " ", 5)
+					k, err := strconv.Atoi(ps[1])
+					if len(ps) < 5 || err != nil {
+						errf("bad traverse stepmark clause: %s", ln)
+						continue
+					}
+					cur.Traverses = append(cur.Traverses, Traverse{Mode: "stepmark", Loop: k, Param: ps[2], Handle: ps[3], Expr: ps[4]})
+					continue
+				}
 				parts := strings.SplitN(rest, " ", 4)
 				if len(parts) < 4 || (parts[0] != "remap" && parts[0] != "mark") {
 					errf("bad traverse clause: %s", ln)
@@ -242,18 +292,24 @@ func (cs *ContractSet) parseFile(pkgPath, file string, f *ast.File) {
 					r.Keep = fs[2:]
 				}
 				cur.Resets = append(cur.Resets, r)
+			case "purefn":
+				cur.PureFns = append(cur.PureFns, strings.Fields(rest)...)
 			case "ghostcall":
 				// ghostcall CALLEE SET: a call of the named function records its first
 				// (non-receiver) argument in ghost set SET instead of being executed
 				fs := strings.Fields(rest)
-				if len(fs) != 2 {
+				if len(fs) != 2 && len(fs) != 3 {
 					errf("bad ghostcall clause: %s", ln)
 					continue
 				}
 				if cur.GhostCalls == nil {
 					cur.GhostCalls = map[string]string{}
+					cur.GhostArg = map[string]string{}
 				}
 				cur.GhostCalls[fs[0]] = fs[1]
+				if len(fs) == 3 {
+					cur.GhostArg[fs[0]] = fs[2] // name of the callee parameter that is recorded
+				}
 			case "except":
 				cur.Except = append(cur.Except, strings.Fields(rest)...)
 			case "reveal":
